@@ -198,6 +198,8 @@ func (ex *Exec) intrinsic(th *Thread, caller *frame, fn *ssa.Function, args []Va
 			panic(abortPath{"unknown parameter " + args[0].(string)})
 		}
 		return uint64(int64(n))
+	case "vParamOpt":
+		return uint64(int64(ex.params[ex.concreteString(args[0], "param name")]))
 	case "vOvfAdd", "vOvfSub", "vOvfMul":
 		op := map[string]TOp{"vOvfAdd": TAdd, "vOvfSub": TSub, "vOvfMul": TMul}[name]
 		x := ex.ts.Sext(ex.toTerm(args[0], 64), 64)
@@ -704,7 +706,8 @@ func registerModels(P *Program) {
 	ic["(*crypto/rand.reader).Read"] = func(ex *Exec, th *Thread, caller *frame, fn *ssa.Function, args []Value) Value {
 		b := args[1].(Slice)
 		for i := 0; i < b.len; i++ {
-			b.elems()[b.off+i] = ex.newInput(fmt.Sprintf("rand[%d]", i), 8)
+			// not a replay input: natively the operating system's source delivers whatever it delivers
+			b.elems()[b.off+i] = ex.newAux(fmt.Sprintf("rand[%d]", i), 8)
 		}
 		return Tuple{uint64(b.len), Iface{}}
 	}
